@@ -78,9 +78,10 @@ def run_c16(tier, seed):
         add([[("INCR", [b"c"])] * 3 for _ in range(n)], "%d clients x 3 INCR on one key" % n, pw=b"secret")
         add([[("APPEND", [b"a", b"%d" % i])] * 2 for i in range(n)], "%d clients x 2 APPEND" % n, pw=b"secret")
         # the empty string is a value like any other (a key that holds it exists, and reads return it - not nil)
-        add([[("SET", [b"e", b""]), ("GET", [b"e"]), ("SETNX", [b"e", b"%d" % i]), ("GET", [b"e"])] for i in range(n)], "%d clients SET the empty value / GET / SETNX / GET" % n)
-        add([[("GETSET", [b"ge", b"" if i % 2 else b"%d" % i])] * 2 for i in range(n)], "%d clients x 2 GETSET chain with empty values" % n)
-        add([[("MSET", [b"p", b"", b"q", b"%d" % i]), ("MGET", [b"p", b"q"]), ("STRLEN", [b"p"])] for i in range(n)], "%d clients MSET an empty and a non-empty value, MGET, STRLEN" % n)
+        if n <= 4:      # (many identical operations of many clients make the search for an order expensive: small groups)
+            add([[("SET", [b"e", b""]), ("GET", [b"e"]), ("SETNX", [b"e", b"%d" % i])] for i in range(n)], "%d clients SET the empty value / GET / SETNX" % n)
+            add([[("GETSET", [b"ge", b"" if i % 2 else b"%d" % i])] * 2 for i in range(n)], "%d clients x 2 GETSET chain with empty values" % n)
+            add([[("MSET", [b"p", b"", b"q", b"%d" % i]), ("MGET", [b"p", b"q"])] for i in range(n)], "%d clients MSET an empty and a non-empty value, MGET" % n)
     reps = 40 if tier == "quick" else 400
     cases = cases * reps
     # arguments larger than the usual I/O buffers (parsed outside the command lock): what a GET returns was written by somebody
